@@ -1,6 +1,438 @@
+(* C41 — proofs about the model of the IDL compiler (IdlModel.v). *)
 From DustDDS Require Import Base.Machine Lang.IdlModel.
 Open Scope string_scope.
 Open Scope list_scope.
 
-Lemma fwd_generates_nothing : forall mods u n, gen_def mods (DFwd u n) = Some [].
+(* ------------------------------------------------------------ boolean equalities *)
+
+Lemma list_eqb_eq {A} (f : A -> A -> bool) :
+  (forall x y, f x y = true <-> x = y) -> forall l m, list_eqb f l m = true <-> l = m.
+Proof.
+  intros Hf. induction l as [|x l IH]; destruct m as [|y m]; cbn [list_eqb]; try (split; [discriminate|discriminate]).
+  - split; reflexivity.
+  - rewrite andb_true_iff, Hf, IH. split.
+    + intros [-> ->]. reflexivity.
+    + intros E. inversion E. auto.
+Qed.
+
+Lemma opt_eqb_eq {A} (f : A -> A -> bool) :
+  (forall x y, f x y = true <-> x = y) -> forall a b, opt_eqb f a b = true <-> a = b.
+Proof.
+  intros Hf [x|] [y|]; cbn [opt_eqb]; try (split; [discriminate|discriminate]).
+  - rewrite Hf. split; [intros ->; reflexivity | intros E; inversion E; reflexivity].
+  - split; reflexivity.
+Qed.
+
+Lemma str_eqb_eq : forall x y : string, (x =? y) = true <-> x = y.
+Proof. exact String.eqb_eq. Qed.
+
+Lemma bool_eqb_eq : forall x y : bool, Bool.eqb x y = true <-> x = y.
+Proof. intros x y. split; [apply eqb_prop | intros ->; apply eqb_reflx]. Qed.
+
+Lemma kind_eqb_eq : forall a b, kind_eqb a b = true <-> a = b.
+Proof.
+  induction a as [| | | | | | | | | | | |x|e IH x|e IH x|e IH|a1 p1|]; destruct b; cbn [kind_eqb];
+    try (split; [discriminate|discriminate]); try (split; reflexivity).
+  - rewrite (opt_eqb_eq _ str_eqb_eq). split; [intros ->; reflexivity | intros E; inversion E; reflexivity].
+  - rewrite andb_true_iff, IH, (opt_eqb_eq _ str_eqb_eq).
+    split; [intros [-> ->]; reflexivity | intros E; inversion E; auto].
+  - rewrite andb_true_iff, IH, (list_eqb_eq _ str_eqb_eq).
+    split; [intros [-> ->]; reflexivity | intros E; inversion E; auto].
+  - rewrite IH. split; [intros ->; reflexivity | intros E; inversion E; reflexivity].
+  - rewrite andb_true_iff, bool_eqb_eq, (list_eqb_eq _ str_eqb_eq).
+    split; [intros [-> ->]; reflexivity | intros E; inversion E; auto].
+Qed.
+
+Lemma kind_eqb_refl : forall k, kind_eqb k k = true.
+Proof. intros k. apply kind_eqb_eq. reflexivity. Qed.
+
+Lemma mshape_eqb_eq : forall a b, mshape_eqb a b = true <-> a = b.
+Proof.
+  intros [n1 k1 y1 i1 o1] [n2 k2 y2 i2 o2]. unfold mshape_eqb. cbn [ms_name ms_kind ms_key ms_id ms_opt].
+  rewrite !andb_true_iff, str_eqb_eq, kind_eqb_eq, !bool_eqb_eq, (opt_eqb_eq _ str_eqb_eq).
+  split.
+  - intros [[[[-> ->] ->] ->] ->]. reflexivity.
+  - intros E. inversion E. auto.
+Qed.
+
+Lemma cshape_eqb_eq : forall a b, cshape_eqb a b = true <-> a = b.
+Proof.
+  intros [l1 d1 n1 k1] [l2 d2 n2 k2]. unfold cshape_eqb. cbn [cs_labels cs_default cs_name cs_kind].
+  rewrite !andb_true_iff, str_eqb_eq, kind_eqb_eq, bool_eqb_eq, (list_eqb_eq _ str_eqb_eq).
+  split.
+  - intros [[[-> ->] ->] ->]. reflexivity.
+  - intros E. inversion E. auto.
+Qed.
+
+Lemma enumr_eqb_eq : forall a b, enumr_eqb a b = true <-> a = b.
+Proof.
+  intros [n1 v1] [n2 v2]. unfold enumr_eqb. cbn [fst snd].
+  rewrite andb_true_iff, str_eqb_eq, (list_eqb_eq _ str_eqb_eq).
+  split; [intros [-> ->]; reflexivity | intros E; inversion E; auto].
+Qed.
+
+Lemma ev_eqb_eq : forall a b, ev_eqb a b = true <-> a = b.
+Proof.
+  intros a b. destruct a, b; cbn [ev_eqb]; try (split; [discriminate|discriminate]); try (split; reflexivity).
+  - rewrite str_eqb_eq. split; [intros ->; reflexivity | intros E; inversion E; reflexivity].
+  - rewrite !andb_true_iff, str_eqb_eq, (list_eqb_eq _ str_eqb_eq), (opt_eqb_eq _ str_eqb_eq),
+      (opt_eqb_eq _ kind_eqb_eq), (list_eqb_eq _ mshape_eqb_eq).
+    split; [intros [[[[-> ->] ->] ->] ->]; reflexivity | intros E; inversion E; auto].
+  - rewrite !andb_true_iff, str_eqb_eq, (list_eqb_eq _ str_eqb_eq), (opt_eqb_eq _ str_eqb_eq),
+      (list_eqb_eq _ enumr_eqb_eq).
+    split; [intros [[[-> ->] ->] ->]; reflexivity | intros E; inversion E; auto].
+  - rewrite !andb_true_iff, str_eqb_eq, (list_eqb_eq _ str_eqb_eq), kind_eqb_eq, (list_eqb_eq _ cshape_eqb_eq).
+    split; [intros [[[-> ->] ->] ->]; reflexivity | intros E; inversion E; auto].
+  - rewrite !andb_true_iff, str_eqb_eq, kind_eqb_eq.
+    split; [intros [-> ->]; reflexivity | intros E; inversion E; auto].
+  - rewrite !andb_true_iff, !str_eqb_eq, kind_eqb_eq.
+    split; [intros [[-> ->] ->]; reflexivity | intros E; inversion E; auto].
+Qed.
+
+Lemma evs_eqb_eq : forall a b, evs_eqb a b = true <-> a = b.
+Proof. exact (list_eqb_eq _ ev_eqb_eq). Qed.
+
+(* the oracle of the correspondence run means equality of the declared structures *)
+Lemma structure_preserved_iff : forall defs items,
+  structure_preserved defs items = true <-> shape_of_items 0 items = shape_of_defs [] defs.
+Proof. intros. unfold structure_preserved. apply evs_eqb_eq. Qed.
+
+Lemma structure_preserved_upto_iff : forall eb ed ea defs items,
+  structure_preserved_upto eb ed ea defs items = true <->
+  map (ev_erase eb ed ea) (shape_of_items 0 items) = map (ev_erase eb ed ea) (shape_of_defs [] defs).
+Proof. intros. unfold structure_preserved_upto. apply evs_eqb_eq. Qed.
+
+(* ------------------------------------------------------- erasing nothing is the identity *)
+
+Lemma kind_erase_none : forall k, kind_erase false false k = k.
+Proof. induction k; cbn [kind_erase]; congruence. Qed.
+
+Lemma map_id_ext {A} (f : A -> A) : (forall x, f x = x) -> forall l, map f l = l.
+Proof. intros H. induction l; cbn [map]; congruence. Qed.
+
+Lemma ms_erase_none : forall m, ms_erase false false false m = m.
+Proof. intros [n k y i o]. unfold ms_erase. cbn [ms_name ms_kind ms_key ms_id ms_opt]. rewrite kind_erase_none. reflexivity. Qed.
+
+Lemma cs_erase_none : forall c, cs_erase false false c = c.
+Proof. intros [l d n k]. unfold cs_erase. cbn [cs_labels cs_default cs_name cs_kind]. rewrite kind_erase_none. reflexivity. Qed.
+
+Lemma ev_erase_none : forall e, ev_erase false false false e = e.
+Proof.
+  intros e. destruct e; cbn [ev_erase]; try reflexivity.
+  - rewrite (map_id_ext _ ms_erase_none). reflexivity.
+  - rewrite (map_id_ext _ cs_erase_none). reflexivity.
+  - rewrite kind_erase_none. reflexivity.
+  - rewrite kind_erase_none. reflexivity.
+Qed.
+
+Lemma evs_erase_none : forall l, map (ev_erase false false false) l = l.
+Proof. exact (map_id_ext _ ev_erase_none). Qed.
+
+(* ------------------------------------------------------------------ kinds of types *)
+
+Lemma leaf_prim : forall p, leaf_kind (prim_rust p) = prim_kind p.
+Proof. destruct p; reflexivity. Qed.
+
+Lemma forallb_super_repeat : forall d, forallb is_super (repeat "super" d) = true.
+Proof. induction d; cbn [repeat forallb]; [reflexivity|]. rewrite IHd. reflexivity. Qed.
+
+Lemma firstn_repeat_app {A} (x : A) d l : firstn d (repeat x d ++ l) = repeat x d.
+Proof. induction d; cbn [repeat firstn app]; [reflexivity | rewrite IHd; reflexivity]. Qed.
+
+Lemma skipn_repeat_app {A} (x : A) d l : skipn d (repeat x d ++ l) = l.
+Proof. induction d; cbn [repeat skipn app]; [reflexivity | exact IHd]. Qed.
+
+Definition head_ok (path : list string) : bool :=
+  match path with [] => false | h :: _ => negb (is_super h) end.
+
+Lemma path_kind_super : forall d path,
+  head_ok path = true ->
+  path_kind (S d) (mkPath false (repeat "super" (S d) ++ path)) = KRef true path.
+Proof.
+  intros d path Hh. unfold path_kind. cbn [p_lead p_segs repeat app].
+  destruct (repeat "super" d ++ path) as [|s1 r] eqn:E.
+  - apply app_eq_nil in E. destruct E as [_ ->]. discriminate.
+  - rewrite <- E. cbn [firstn forallb length]. rewrite firstn_repeat_app, forallb_super_repeat.
+    cbn [is_super]. change (is_super "super") with true. cbn [andb].
+    replace (Nat.leb (S d) (S (length (repeat "super" d ++ path)))) with true.
+    + cbn [skipn]. rewrite skipn_repeat_app. reflexivity.
+    + symmetry. apply Nat.leb_le. rewrite app_length, repeat_length. lia.
+Qed.
+
+(* the generated path of a scoped name denotes that scoped name again *)
+Lemma scoped_kind : forall mods abs path,
+  head_ok path = true -> path_kind (length mods) (scoped mods abs path) = name_kind abs path.
+Proof.
+  intros mods abs path Hh. unfold scoped. destruct abs.
+  - destruct mods as [|m ms].
+    + destruct path; reflexivity.
+    + cbn [length]. rewrite path_kind_super by exact Hh. destruct path; reflexivity.
+  - destruct path as [|h t]; [discriminate|]. cbn [head_ok] in Hh. apply negb_true_iff in Hh.
+    unfold path_kind. cbn [p_lead p_segs]. destruct t as [|t1 t2].
+    + reflexivity.
+    + destruct (length mods) as [|d]; [reflexivity|].
+      cbn [firstn forallb]. rewrite Hh. reflexivity.
+Qed.
+
+Fixpoint tspec_wf (t : tspec) : bool :=
+  match t with
+  | TName _ p => head_ok p
+  | TSeq e _ => tspec_wf e
+  | TUnsup _ => false
+  | _ => true
+  end.
+
+Lemma gen_ty_total : forall mods t, tspec_wf t = true -> exists r, gen_ty mods t = Some r.
+Proof.
+  intros mods. induction t; cbn [tspec_wf gen_ty]; intros H; try (eexists; reflexivity); try discriminate.
+  destruct (IHt H) as [r ->]. eexists. reflexivity.
+Qed.
+
+Lemma gen_ty_panics : forall mods t, tspec_supported t = false -> gen_ty mods t = None.
+Proof.
+  intros mods. induction t; cbn [tspec_supported gen_ty]; intros H; try discriminate; try reflexivity.
+  rewrite (IHt H). reflexivity.
+Qed.
+
+(* a generated type is never an array (arrays come from declarators only) *)
+Definition not_arr (k : kind) : Prop := match k with KArr _ _ => False | _ => True end.
+
+Lemma leaf_not_arr : forall n, not_arr (leaf_kind n).
+Proof.
+  intros n. unfold leaf_kind.
+  repeat match goal with |- not_arr (if ?c then _ else _) => destruct c; [exact I|] end. exact I.
+Qed.
+
+Lemma path_kind_not_arr : forall d p, not_arr (path_kind d p).
+Proof.
+  intros d [l segs]. unfold path_kind. cbn [p_lead p_segs]. destruct l.
+  - destruct d; exact I.
+  - destruct segs as [|s [|s2 r]].
+    + destruct d; exact I.
+    + apply leaf_not_arr.
+    + destruct d; [exact I|]. match goal with |- not_arr (if ?c then _ else _) => destruct c; exact I end.
+Qed.
+
+Lemma gen_ty_not_arr : forall mods t r d, gen_ty mods t = Some r -> not_arr (kind_of_rty d r).
+Proof.
+  intros mods t r d. destruct t; cbn [gen_ty]; intros H; try (inversion H; subst; cbn [kind_of_rty]; first [apply path_kind_not_arr | exact I]); try discriminate.
+  destruct (gen_ty mods t); [|discriminate]. inversion H. exact I.
+Qed.
+
+(* kinds agree up to the bounds (which the generator drops) *)
+Lemma gen_ty_kind : forall eb ed mods t r,
+  tspec_wf t = true -> (tspec_bounded t = true -> eb = true) ->
+  gen_ty mods t = Some r ->
+  kind_erase eb ed (kind_of_rty (length mods) r) = kind_erase eb ed (kind_of_tspec t).
+Proof.
+  intros eb ed mods. induction t; cbn [tspec_wf tspec_bounded gen_ty kind_of_tspec]; intros r Hwf Hb H; try discriminate.
+  - inversion H. subst. cbn [kind_of_rty]. unfold path_kind. cbn [p_lead p_segs]. rewrite leaf_prim. reflexivity.
+  - inversion H. subst. cbn [kind_of_rty]. rewrite scoped_kind by exact Hwf. reflexivity.
+  - destruct (gen_ty mods t) as [r0|] eqn:E; [|discriminate]. inversion H. subst. cbn [kind_of_rty kind_erase].
+    rewrite (IHt r0 Hwf) by (try reflexivity; intros Hb'; apply Hb; rewrite Hb'; apply orb_true_r).
+    destruct eb; [reflexivity|]. destruct b; [|reflexivity].
+    exfalso. assert (false = true) by (apply Hb; reflexivity). discriminate.
+  - inversion H. subst. cbn [kind_of_rty kind_erase]. destruct eb; [reflexivity|]. destruct b; [|reflexivity].
+    exfalso. assert (false = true) by (apply Hb; reflexivity). discriminate.
+  - inversion H. subst. cbn [kind_of_rty kind_erase]. destruct eb; [reflexivity|]. destruct b; [|reflexivity].
+    exfalso. assert (false = true) by (apply Hb; reflexivity). discriminate.
+Qed.
+
+(* ---------------------------------------------------------------------- members *)
+
+Lemma view_one_attrs : forall l, view (map one_attr l) = match l with [] => [] | a :: _ => [a] end.
+Proof. destruct l; reflexivity. Qed.
+
+Lemma opt_flag_agrees : forall A, existsb is_opt_arg (rec_args A) = is_optional A.
+Proof.
+  unfold rec_args, is_optional. induction A as [|a A IH]; [reflexivity|].
+  cbn [flat_map existsb]. rewrite existsb_app, IH. f_equal.
+  unfold annot_arg. destruct (an_name a =? "key") eqn:K.
+  - apply String.eqb_eq in K. rewrite K. reflexivity.
+  - destruct (an_name a =? "id") eqn:I.
+    + apply String.eqb_eq in I. rewrite I. destruct (an_arg a); reflexivity.
+    + destruct (an_name a =? "optional"); reflexivity.
+Qed.
+
+Lemma kind_of_arr : forall d e n, not_arr (kind_of_rty d e) ->
+  kind_of_rty d (RArr e n) = KArr (kind_of_rty d e) [n].
+Proof. intros d e n H. cbn [kind_of_rty]. destruct (kind_of_rty d e); try reflexivity. destruct H. Qed.
+
+Lemma decl_kind_ok : forall eb ed mods t r d,
+  tspec_wf t = true -> (tspec_bounded t = true -> eb = true) -> (multi_dim d = true -> ed = true) ->
+  gen_ty mods t = Some r ->
+  kind_erase eb ed (kind_of_rty (length mods) (wrap_arr d r)) = kind_erase eb ed (decl_kind d (kind_of_tspec t)).
+Proof.
+  intros eb ed mods t r d Hwf Hb Hd H. destruct d as [n|n d0 ds]; cbn [wrap_arr decl_kind].
+  - apply gen_ty_kind; assumption.
+  - rewrite kind_of_arr by (eapply gen_ty_not_arr; exact H).
+    cbn [kind_erase]. rewrite (gen_ty_kind eb ed mods t r Hwf Hb H). f_equal.
+    destruct ds as [|d1 ds]; [destruct ed; reflexivity|].
+    rewrite Hd by reflexivity. reflexivity.
+Qed.
+
+Lemma opt_kind_ok : forall eb ed mods t r d (o : bool),
+  tspec_wf t = true -> (tspec_bounded t = true -> eb = true) -> (multi_dim d = true -> ed = true) ->
+  gen_ty mods t = Some r ->
+  kind_erase eb ed (kind_of_rty (length mods) (if o then ROpt (wrap_arr d r) else wrap_arr d r))
+  = kind_erase eb ed (if o then KOpt (decl_kind d (kind_of_tspec t)) else decl_kind d (kind_of_tspec t)).
+Proof.
+  intros eb ed mods t r d o Hwf Hb Hd H. destruct o; [cbn [kind_of_rty kind_erase]; f_equal|];
+    apply decl_kind_ok; assumption.
+Qed.
+
+Lemma imp_false : forall (b : bool), (b = true -> false = true) -> b = false.
+Proof. intros [|] H; [symmetry; apply H; reflexivity | reflexivity]. Qed.
+
+Lemma member_shape_ok : forall eb ed ea mods m fs,
+  tspec_wf (m_type m) = true ->
+  (tspec_bounded (m_type m) = true -> eb = true) ->
+  (existsb multi_dim (m_d0 m :: m_ds m) = true -> ed = true) ->
+  (member_multi_annot m = true -> ea = true) ->
+  (member_split m = true -> ea = true) ->
+  gen_member mods m = Some fs ->
+  map (ms_erase eb ed ea) (map (field_shape (length mods)) fs) = map (ms_erase eb ed ea) (member_shapes m).
+Proof.
+  intros eb ed ea mods [A t d0 ds] fs. cbn [m_annots m_type m_d0 m_ds]. intros Hwf Hb Hd Hma Hsp.
+  unfold gen_member, member_shapes. cbn [m_annots m_type m_d0 m_ds].
+  destruct (gen_ty mods t) as [r|] eqn:G; [|discriminate]. intros E. inversion E. subst fs. clear E.
+  rewrite <- opt_flag_agrees.
+  assert (Hd0 : multi_dim d0 = true -> ed = true).
+  { intros H. apply Hd. cbn [existsb]. rewrite H. reflexivity. }
+  assert (Hds : forall d, In d ds -> multi_dim d = true -> ed = true).
+  { intros d Hin H. apply Hd. cbn [existsb]. apply orb_true_iff. right. apply existsb_exists. exists d. auto. }
+  cbn [map]. f_equal.
+  - (* the first declarator carries the attributes *)
+    unfold field_shape, ms_erase. cbn [f_attrs f_name f_ty ms_name ms_kind ms_key ms_id ms_opt].
+    rewrite (opt_kind_ok eb ed mods t r d0 _ Hwf Hb Hd0 G).
+    destruct ea; [reflexivity|].
+    apply imp_false in Hsp. unfold member_split in Hsp. cbn [m_annots] in Hsp.
+    rewrite view_one_attrs. destruct (rec_args A) as [|a [|b R']]; [reflexivity| |discriminate].
+    reflexivity.
+  - (* the others carry none *)
+    rewrite !map_map. apply map_ext_in. intros d Hin.
+    unfold field_shape, ms_erase. cbn [f_attrs f_name f_ty ms_name ms_kind ms_key ms_id ms_opt view existsb find_id].
+    rewrite (opt_kind_ok eb ed mods t r d _ Hwf Hb (Hds d Hin) G).
+    destruct ea; [reflexivity|].
+    apply imp_false in Hma. unfold member_multi_annot in Hma. cbn [m_annots m_ds] in Hma.
+    destruct (rec_args A) as [|a R']; [reflexivity|]. destruct ds; [destruct Hin | discriminate].
+Qed.
+
+Lemma gen_member_total : forall mods m, tspec_wf (m_type m) = true -> exists fs, gen_member mods m = Some fs.
+Proof.
+  intros mods m H. unfold gen_member. destruct (gen_ty_total mods _ H) as [r ->]. eexists. reflexivity.
+Qed.
+
+(* concat_opt / all_opt *)
+Lemma concat_opt_some {A B} (f : A -> option (list B)) : forall l,
+  (forall x, In x l -> exists y, f x = Some y) -> exists ys, concat_opt (map f l) = Some ys.
+Proof.
+  induction l as [|x l IH]; intros H; cbn [map concat_opt]; [eexists; reflexivity|].
+  destruct (H x (or_introl eq_refl)) as [y ->]. destruct IH as [ys ->]; [intros z Hz; apply H; right; exact Hz|].
+  eexists. reflexivity.
+Qed.
+
+Lemma all_opt_some {A B} (f : A -> option B) : forall l,
+  (forall x, In x l -> exists y, f x = Some y) -> exists ys, all_opt (map f l) = Some ys.
+Proof.
+  induction l as [|x l IH]; intros H; cbn [map all_opt]; [eexists; reflexivity|].
+  destruct (H x (or_introl eq_refl)) as [y ->]. destruct IH as [ys ->]; [intros z Hz; apply H; right; exact Hz|].
+  eexists. reflexivity.
+Qed.
+
+(* a list statement lifted through concat_opt: if every piece satisfies g (f-output) = h input *)
+Lemma concat_opt_map {A B C} (f : A -> option (list B)) (g : list B -> list C) (h : A -> list C) :
+  (forall x y, g (x ++ y) = g x ++ g y) -> g [] = [] ->
+  forall l ys, (forall x y, In x l -> f x = Some y -> g y = h x) ->
+  concat_opt (map f l) = Some ys -> g ys = flat_map h l.
+Proof.
+  intros Happ Hnil. induction l as [|x l IH]; intros ys H; cbn [map concat_opt flat_map].
+  - intros E. inversion E. exact Hnil.
+  - destruct (f x) as [y|] eqn:F; [|discriminate].
+    destruct (concat_opt (map f l)) as [zs|] eqn:CO; [|discriminate].
+    intros E. inversion E. subst ys. rewrite Happ. f_equal.
+    + apply H; [left; reflexivity | exact F].
+    + apply IH; [intros z w Hz; apply H; right; exact Hz | reflexivity].
+Qed.
+
+(* ------------------------------------------------------------- list plumbing *)
+
+Lemma map_flat_map {A B C} (f : B -> C) (g : A -> list B) : forall l,
+  map f (flat_map g l) = flat_map (fun x => map f (g x)) l.
+Proof. induction l as [|x l IH]; cbn [flat_map map]; [reflexivity|]. rewrite map_app, IH. reflexivity. Qed.
+
+Lemma flat_map_ext_in {A B} (f g : A -> list B) : forall l,
+  (forall x, In x l -> f x = g x) -> flat_map f l = flat_map g l.
+Proof.
+  induction l as [|x l IH]; intros H; cbn [flat_map]; [reflexivity|].
+  rewrite (H x (or_introl eq_refl)), IH; [reflexivity | intros y Hy; apply H; right; exact Hy].
+Qed.
+
+Lemma filter_map_comm {A} (p : A -> bool) (f : A -> A) :
+  (forall x, p (f x) = p x) -> forall l, filter p (map f l) = map f (filter p l).
+Proof.
+  intros H. induction l as [|x l IH]; cbn [map filter]; [reflexivity|].
+  rewrite H. destruct (p x); cbn [map]; rewrite IH; reflexivity.
+Qed.
+
+Lemma existsb_false_in {A} (p : A -> bool) : forall l x, existsb p l = false -> In x l -> p x = false.
+Proof.
+  intros l x H Hin. destruct (p x) eqn:E; [|reflexivity].
+  assert (existsb p l = true) by (apply existsb_exists; exists x; auto). congruence.
+Qed.
+
+Lemma imp_existsb {A} (p : A -> bool) (b : bool) : forall l x,
+  (existsb p l = true -> b = true) -> In x l -> p x = true -> b = true.
+Proof. intros l x H Hin Hp. apply H. apply existsb_exists. exists x. auto. Qed.
+
+(* ------------------------------------------------------------------- structs *)
+
+Lemma derives_std : forall l, derives_dds (RDerive std_traits :: l) = true.
 Proof. reflexivity. Qed.
+
+Definition is_ext_arg (a : rarg) : Prop := match a with AExt _ => True | _ => False end.
+
+Lemma ext_args_are_ext : forall A, Forall is_ext_arg (flat_map ext_arg A).
+Proof.
+  induction A as [|a A IH]; cbn [flat_map]; [constructor|]. apply Forall_app. split; [|exact IH].
+  unfold ext_arg.
+  destruct (an_name a =? "final"); [repeat constructor|].
+  destruct (an_name a =? "appendable"); [repeat constructor|].
+  destruct (an_name a =? "mutable"); repeat constructor.
+Qed.
+
+Lemma ms_erase_name : forall eb ed ea m, is_parent (ms_erase eb ed ea m) = is_parent m.
+Proof. reflexivity. Qed.
+
+Definition notparent (m : mshape) : bool := negb (is_parent m).
+
+Lemma members_shape_ok : forall eb ed ea mods ms fs,
+  forallb (fun m => tspec_wf (m_type m)) ms = true ->
+  (existsb (fun m => tspec_bounded (m_type m)) ms = true -> eb = true) ->
+  (existsb (fun m => existsb multi_dim (m_d0 m :: m_ds m)) ms = true -> ed = true) ->
+  (existsb member_multi_annot ms = true -> ea = true) ->
+  (existsb member_split ms = true -> ea = true) ->
+  concat_opt (map (gen_member mods) ms) = Some fs ->
+  map (ms_erase eb ed ea) (map (field_shape (length mods)) fs)
+  = map (ms_erase eb ed ea) (flat_map member_shapes ms).
+Proof.
+  intros eb ed ea mods ms fs Hwf Hb Hd Hma Hsp H.
+  rewrite map_flat_map.
+  apply (concat_opt_map (gen_member mods)
+           (fun fs => map (ms_erase eb ed ea) (map (field_shape (length mods)) fs))
+           (fun m => map (ms_erase eb ed ea) (member_shapes m))) with (l := ms).
+  - intros x y. rewrite !map_app. reflexivity.
+  - reflexivity.
+  - intros m fm Hin G. rewrite forallb_forall in Hwf.
+    apply member_shape_ok; try assumption.
+    + apply Hwf. exact Hin.
+    + intros E. eapply (imp_existsb _ eb ms m Hb Hin). exact E.
+    + intros E. eapply (imp_existsb _ ed ms m Hd Hin). exact E.
+    + intros E. eapply (imp_existsb _ ea ms m Hma Hin). exact E.
+    + intros E. eapply (imp_existsb _ ea ms m Hsp Hin). exact E.
+  - exact H.
+Qed.
+
+Lemma view_derive : forall t l, view (RDerive t :: l) = view l.
+Proof. reflexivity. Qed.
+
